@@ -174,6 +174,8 @@ func main() {
 		c38(*seed, *n)
 	case "c07":
 		c07(*seed, *n)
+	case "c14":
+		c14(*seed, *n)
 	default:
 		fmt.Fprintln(os.Stderr, "usage: chunkharness [-seed N] [-n N] c38|...")
 		os.Exit(2)
